@@ -3,8 +3,8 @@
    is a function of its arguments, so "earlier runs in the same process" has no
    model-level content; the only place where Python iterates a set (whose
    order depends on PYTHONHASHSEED) is the tag set of a Pretext scaffold. *)
-From Tola Require Import Py.Base Model.Fragment Model.Scaffold Model.Namer Model.Fasta
-  Proofs.Routing Proofs.FastaIndex.
+From Tola Require Import Py.Base Model.Fragment Model.Scaffold Model.Namer Model.Fasta Model.FastaSpec
+  Model.AgpTpf Model.AgpTpfSpec Proofs.Routing Proofs.FastaIndex Proofs.CacheRoundTrip.
 From Coq Require Import Permutation.
 
 (* the namer's result (Ok/Err and every field) does not depend on the order in
@@ -41,3 +41,20 @@ Theorem C17_index_buffer_independent : forall file b1 b2,
   drop_peak (index_fasta file b1) = drop_peak (index_fasta file b2).
 Proof. exact index_buffer_independent. Qed.
 Print Assumptions C17_index_buffer_independent.
+
+(* whether the FASTA index cache was freshly built or loaded from disk makes no
+   difference: for every well-formed FASTA, loading the written .fai gives the
+   index back, and parsing the written .agp gives the derived assembly back *)
+Theorem C17_cold_warm_index : forall w eol final_nl recs buf idx asm,
+  fasta_wf w eol recs ->
+  drop_peak (index_fasta (render w eol final_nl recs) buf) = Ok (idx, asm) ->
+  load_index (write_index idx) = Ok idx.
+Proof. exact cold_warm_index. Qed.
+Print Assumptions C17_cold_warm_index.
+
+Theorem C17_cache_roundtrip_assembly : forall w eol recs h, fasta_wf w eol recs -> header_ok h ->
+  Forall (fun r => match r_name r with c :: _ => c <> "#"%char | [] => False end) recs ->
+  exists t, format_agp (mkAsm [h] (expected_asm recs)) = Ok t
+            /\ parse_agp t = Ok (mkAsm [h] (expected_asm recs)).
+Proof. exact cache_roundtrip_assembly. Qed.
+Print Assumptions C17_cache_roundtrip_assembly.
